@@ -76,6 +76,7 @@ func (r *replicator) start(stop <-chan struct{}) {
 
 	var req replicationRequest
 	for {
+		verifLoopGate("replicator.loop_top", r.replica, stop)
 		select {
 		case <-stop:
 			return
@@ -94,6 +95,7 @@ func (r *replicator) start(stop <-chan struct{}) {
 			latest   = r.partition.log.NewestOffset()
 			earliest = r.partition.log.OldestOffset()
 		)
+		verifLoopGate("replicator.before_respond", r.replica, stop)
 
 		// Check if we're caught up.
 		if req.Offset >= latest {
@@ -271,6 +273,7 @@ func (r *replicator) caughtUp(stop <-chan struct{}, leo int64, req replicationRe
 		r.partition.srv.startGoroutine(func() {
 			select {
 			case <-waiter:
+				verifLoopGate("replicator.before_notify", req.ReplicaID, nil)
 				r.mu.Lock()
 				r.waiter = nil
 				r.mu.Unlock()
